@@ -29,6 +29,20 @@ func (p ArrayPattern) Bind(ctx context.Context, local Scope, value Value) (conte
 	if !is {
 		return ctx, EmptyScope, fmt.Errorf("value %s is not an array", value)
 	}
+	if len(p.items) == 1 {
+		if _, is := p.items[0].pattern.(ExtraElementPattern); is {
+			// [...rest] alone: the remainder is the whole array, offset and holes included.
+			return p.items[0].pattern.Bind(ctx, local, array)
+		}
+	}
+	// An array pattern denotes a dense array starting at index 0: the positions
+	// below index array.Values(), which ignores the offset and holds nil for holes.
+	if array.offset != 0 {
+		return ctx, EmptyScope, fmt.Errorf("array %s does not start at index 0, unlike array pattern %s", array, p)
+	}
+	if array.count != len(array.values) {
+		return ctx, EmptyScope, fmt.Errorf("array %s has holes, unlike array pattern %s", array, p)
+	}
 
 	extraElements := make(map[int]int)
 	for i, item := range p.items {
